@@ -136,6 +136,9 @@ def sig_case(draw):
             return b'\x51\x63\xab\x68'          # inside an executed branch
         if k == 8:
             return b'\x00\x63\xab\x68'          # inside an unexecuted branch: must not count
+        if sv == R.TAPSCRIPT and draw(st.integers(0, 3)) == 0:
+            # the BIP342 digest commits to the opcode position of the last executed code separator as 32 bits: positions beyond one and two bytes
+            return b'\x61' * draw(st.sampled_from([253, 254, 255, 256, 257, 300, 65533, 65534, 65535, 65536])) + b'\xab'
         return b'\xab\x61\xab'
 
     if sv == R.TAPROOT:
